@@ -15,6 +15,18 @@ namespace rkverif {
     bool operator<(const Over64 &) const { return false; }
     float lanes[16];
   };
+
+  // trivially destructible, but copying is not a byte copy: the object refers to its own member
+  struct SelfRef
+  {
+    SelfRef() : v(0), p(&v) {}
+    SelfRef(const SelfRef &o) : v(o.v), p(&v) {}
+    SelfRef &operator=(const SelfRef &o) { v = o.v; return *this; }
+    bool operator==(const SelfRef &o) const { return v == o.v; }
+    bool operator<(const SelfRef &o) const { return v < o.v; }
+    int v;
+    int *p;
+  };
 }  // namespace rkverif
 
 namespace rkcommon {
@@ -25,6 +37,7 @@ namespace rkcommon {
     template struct Optional<std::string>;
     template struct Optional<std::vector<int>>;
     template struct Optional<rkverif::Over64>;
+    template struct Optional<rkverif::SelfRef>;
 
     // member templates (converting constructors / assignments, emplace, value_or)
     template Optional<double>::Optional(const Optional<int> &);
